@@ -2,7 +2,10 @@
 
 package main
 
-import "math/big"
+import (
+	"math/big"
+	"strings"
+)
 
 // Reference model of the device's *specified* behaviour, written from the property
 // statements (C04 arithmetic / action rules, C06 transfer function). Unbounded ints.
@@ -117,6 +120,9 @@ func (r *Ref) Transpose(base, off int) (ch, pitch int, ok bool) {
 // KeyPair: what pressing note key k produces in the current mapping.
 func (r *Ref) KeyPair(d *Desc, k string) (ch, pitch int, ok bool) {
 	kn, mapped := d.Mappings[r.Map].Keys[k]
+	if i := strings.Index(k, ":"); i >= 0 { // "<sub-handler>:<key>"
+		kn, mapped = d.Mappings[r.Map].SubKeys[k[:i]][k[i+1:]]
+	}
 	if !mapped {
 		return 0, 0, false
 	}
